@@ -12,6 +12,8 @@ Streams:
               `sp` always followed by `di` (the only way the client API issues it)
   boundary    interval values on both sides of every clamp, failure runs 0..9 on one tracker,
               sub-second clock offsets around ceil_seconds
+  udp_wire    one REAL TrackerUdp + UdpRouter announcing to an in-process BEP-15 socket: event code and
+              downloaded/left/uploaded fields of the 98-byte announce packet for every client event
   exhaustive  (thorough) every op list of length <= 5 over a 10-op alphabet for 2 trackers / 2 tiers
 """
 import itertools
@@ -209,6 +211,27 @@ def boundary_cases(r):
     return out
 
 
+UDP_HAND = [
+    "U 11 22 33 ; ss sc mr sp",
+    "U 5 6 7 ; ss ss mr SP ST sc SP",
+    "U 1 2 3 ; sp sc mr ss sp",
+    "U 0 0 0 ; ST sc SP",
+    "U 4294967296 1099511627776 9223372036854775807 ; ss mr sc mr sp",
+]
+
+
+def udp_cases(r, n):
+    """UDP wire observation: one real TrackerUdp, every client event, figures at field boundaries"""
+    out = list(UDP_HAND)
+    for _ in range(n):
+        figs = [r.choice((0, 1, 255, 65536, 2 ** 32 - 1, 2 ** 32, 2 ** 40 + 7, r.randrange(2 ** 62))) for _ in range(3)]
+        ops = ["ss"] if r.random() < 0.8 else []
+        for _ in range(r.randrange(1, 6)):
+            ops.append(r.choice(("ss", "sc", "sp", "mr", "mr", "sc", "ST", "SP")))
+        out.append("U %d %d %d ; %s" % (figs[0], figs[1], figs[2], " ".join(ops)))
+    return out
+
+
 def line(groups, ops, t0=0):
     return "T %d G %d %s ; %s" % (t0, len(groups), " ".join(map(str, groups)), " ".join(ops))
 
@@ -243,6 +266,9 @@ def gen(seed, tier):
         g, ops = primitive_stream(r, r.choice((6, 12, 25, 60)))
         cases.append(line(g, ops, r.choice((0, r.randrange(1000000)))))
         stats["primitive"] += 1
+    for u in udp_cases(r, 25 if tier == "quick" else 200):
+        cases.append(u)
+        stats["udp_wire"] = stats.get("udp_wire", 0) + 1
     if tier != "quick":
         for n in range(1, 6):
             for tup in itertools.product(EX_ALPHA, repeat=n):
